@@ -44,8 +44,9 @@ def src(rnd, code, allow_raise=True):
 
 
 class Gen(object):
-    def __init__(self, rnd, p_err=0.4):
+    def __init__(self, rnd, p_err=0.4, codes_as_text=True):
         self.rnd, self.p_err = rnd, p_err
+        self.codes_as_text = codes_as_text        # text that merely spells an error code (not an error value)
 
     def err(self):
         c = self.rnd.choice(CODES8)
@@ -95,7 +96,7 @@ class Gen(object):
         for _ in range(r.randint(2, 3)):
             k = r.random()
             if k < 0.35:
-                ops.append(('s', r.choice(['a', 'b', '', 'xy'])))
+                ops.append(('s', r.choice(['a', 'b', '', 'xy', '#N/A', '#DIV/0!', '#NUM!'] if self.codes_as_text else ['a', 'b', '', 'xy'])))
             elif k < 0.6:
                 ops.append(self.err())
             elif k < 0.75:
@@ -110,6 +111,8 @@ class Gen(object):
 
     def anything(self, d):
         k = self.rnd.random()
+        if k < 0.06 and self.codes_as_text:
+            return ('s', self.rnd.choice(['#N/A', '#DIV/0!', '#VALUE!', '#REF!', '#NAME?', '#NUM!', '#NULL!', '#GETTING_DATA', '#ERROR!', 'N/A', '#n/a']))
         if k < 0.6:
             return self.num(d)
         if k < 0.8 and d > 0:
@@ -237,13 +240,13 @@ def model(t):
             return alt if (isinstance(v, E) and v.code == '#N/A') else v
     if k == 'call':
         vals = [model(x) for x in t[2]]
+        if t[1] != 'IDF' and any(v is ARR for v in vals):
+            raise Unclaimed('aggregate over an array result (its elements may themselves be errors)')
         for v in vals:
             if isinstance(v, E):
                 return v
         if t[1] == 'IDF':
             return vals[0]
-        if any(v is ARR for v in vals):
-            raise Unclaimed('aggregate over an array result')
         xs = [numv(v) for v in vals]
         if t[1] == 'SUM':
             return sum(xs)
@@ -391,6 +394,16 @@ class Check(BaseCheck):
         if not self.agree(m, r):
             key = '+'.join(sorted(fs - {'raised-error'})) or ('raised-error' if 'raised-error' in fs else 'plain')
             rec.violation('C08/' + key, formula=f, record=r, expected=repr(m))
+        # ISERROR = ISERR or ISNA on the value of this very expression, whatever it is (observed results only)
+        if self.rnd_id.random() < 0.25 and len(f) < 400:
+            trio = [self.e.raw('%s(%s)' % (fn, f)) for fn in ('ISERROR', 'ISERR', 'ISNA')]
+            rec.case()
+            if all(x['error'] is None and isinstance(x['result'], bool) for x in trio):
+                if trio[0]['result'] != (trio[1]['result'] or trio[2]['result']):
+                    rec.violation('C08/ISERROR-differs-from-ISERR-or-ISNA', formula=f, iserror=trio[0], iserr=trio[1], isna=trio[2])
+                if isinstance(m, E) != trio[0]['result'] and not isinstance(m, Arr):
+                    rec.violation('C08/ISERROR-disagrees-with-the-error-algebra', formula=f, iserror=trio[0], expected=repr(m))
+            rec.count('identity_checks')
         if 'err' in repr(t):
             rec.nt(f)
         for x in fs:
@@ -415,6 +428,7 @@ class Check(BaseCheck):
 
     def c_trees(self, spec, rec):
         rnd = self.rng(spec)
+        self.rnd_id = self.rng(spec, 'identity')
         g = Gen(rnd)
         for _ in range(spec['n']):
             self.judge_tree(rec, g.tree(rnd.randint(1, spec['maxdepth'])))
@@ -422,7 +436,7 @@ class Check(BaseCheck):
     def c_literals(self, spec, rec):
         """an error literal anywhere makes the whole formula report that code (no other error source present)"""
         rnd = self.rng(spec)
-        g = Gen(rnd, p_err=0.0)
+        g = Gen(rnd, p_err=0.0, codes_as_text=False)
         for _ in range(spec['n']):
             t = g.tree(rnd.randint(0, 4))
             code = rnd.choice(CODES8)
@@ -456,6 +470,9 @@ class Check(BaseCheck):
             rec.sample({'formula': f2, 'expected': code}, k=6)
 
     def c_sentinels(self, spec, rec):
+        import random
+        self.rnd_id = random.Random(0)
+        self.rnd_id.random = lambda: 0.0
         N = lambda n: ('n', n)
         div0 = ('err', '#DIV/0!', 'operator', '1/0')
         na = ('err', '#N/A', 'returned', 'NA()')
@@ -466,6 +483,8 @@ class Check(BaseCheck):
               ('b', '+', div0, na), ('b', '+', na, div0), ('b', '/', ('err', '#REF!', 'host-var', 'ev_d'), ('trap', 'IFNA', ('b', '*', N(3), rr), N(77))),
               ('trap', 'IFERROR', ('call', 'IDF', [rs]), N(4)), ('call', 'SUM', [N(1), rr]), ('b', '+', rr, N(1)), ('trap', 'ISERR', na), ('trap', 'ISERR', div0),
               ('trap', 'IFERROR', N(1), div0), ('trap', 'IFERROR', div0, na), ('trap', 'ERROR.TYPE', N(1))]
+        ts += [('trap', 'ISNA', ('s', '#N/A')), ('trap', 'ISERR', ('s', '#DIV/0!')), ('trap', 'ISERROR', ('s', '#REF!')), ('trap', 'IFNA', ('s', '#N/A'), N(4)),
+               ('trap', 'IFERROR', ('s', '#VALUE!'), N(4)), ('trap', 'ERROR.TYPE', ('s', '#NUM!')), ('trap', 'ISNA', ('amp', [('s', '#N'), ('s', '/A')]))]
         arr = ('arr', '{1,2}')
         ts += [('b', '+', arr, na), ('b', '-', na, arr), ('trap', 'ISERROR', ('b', '*', arr, div0)), ('trap', 'IFERROR', ('b', '/', ('arr', 'A1:B2'), rr), N(5)),
                ('trap', 'ISNA', ('b', '+', ('arr', 'v_arr'), na)), ('b', '+', arr, N(1)), ('trap', 'ISERROR', ('b', '+', arr, N(1)))]
